@@ -152,7 +152,7 @@ def twinnable(sx) -> bool:
                     return False
                 if k < STR_BASE and k != NONE_CODE and not (0 <= k <= 19):
                     return False
-                if k >= STR_BASE and STR_POOL[k - STR_BASE] in _TWIN_BACK["str"]:  # a pool string that is itself a digit string
+                if STR_BASE <= k < STR_BASE + len(STR_POOL) and STR_POOL[k - STR_BASE] in _TWIN_BACK["str"]:  # a pool string that is itself a digit string
                     return False
     return True
 
@@ -188,10 +188,24 @@ def encode_const(v) -> int:
         if v in STR_POOL:
             return STR_BASE + STR_POOL.index(v)
         raise Unliftable(f"string not in pool: {v!r}")
+    if isinstance(v, (list, dict, set)):
+        # unhashable constants (legitimate for eq_p / ne_p): one code per ==-class, beyond the string range; the model only ever
+        # compares them for equality (they occur in eq / ne atoms alone)
+        for k, o in enumerate(_OPAQUE):
+            if type(o) is type(v) and o == v:
+                return OPAQUE_BASE + k
+        _OPAQUE.append(v)
+        return OPAQUE_BASE + len(_OPAQUE) - 1
     raise Unliftable(f"constant {v!r}")
 
 
+OPAQUE_BASE = 300000
+_OPAQUE: list = []
+
+
 def decode_const(c: int):
+    if c >= OPAQUE_BASE:
+        return _OPAQUE[c - OPAQUE_BASE]
     if TWIN and _twin_str(c) is not None:
         return _twin_str(c)
     if c == NONE_CODE:
